@@ -42,14 +42,26 @@ def fx_flag():
 
 
 class Namer:
+    """Distinct names that are fixed points of the normalisation.  One in five extends a name issued before
+    (`Bab` -> `Babgroup`): names of which one is a PREFIX of another must not confuse anything that looks objects or
+    enclosing block instances up by name (seed C12-6 matched the name stack with starts_with)."""
+
     def __init__(self, rng):
         self.pool = list(NAMES)
         rng.shuffle(self.pool)
         self.i = 0
+        self.rng = rng
+        self.issued = []
 
     def fresh(self):
+        if self.issued and self.rng.random() < 0.2:
+            n = self.rng.choice(self.issued) + self.rng.choice(["x", "s", "group", "b"])
+            if n not in self.issued and len(n) < 20:
+                self.issued.append(n)
+                return n
         n = self.pool[self.i]
         self.i += 1
+        self.issued.append(n)
         return n
 
 
